@@ -3,7 +3,7 @@ C15 — model of askar's key agreement glue, following the CURRENT code in /repo
 
 * `askar-crypto/src/kdf/concat.rs`   `ConcatKDFHash` (`start_pass`, `hash_message`, `hash_params`, `finish_pass`)
 * `askar-crypto/src/kdf/ecdh_es.rs`  `EcdhEs::derive_key_bytes`
-* `askar-crypto/src/kdf/ecdh_1pu.rs` `Ecdh1PU::derive_key_bytes` (the 132-byte `pub_info` stack buffer behind `Writer::from_slice`)
+* `askar-crypto/src/kdf/ecdh_1pu.rs` `Ecdh1PU::derive_key_bytes` (the `pub_info` stack buffer behind `Writer::from_slice`; its size is read from the source: `Generated.ecdh1puPubInfoCap`)
 * `askar-crypto/src/buffer/writer.rs` `Writer<[u8]>::buffer_write`, `as_ref`
 * `askar-crypto/src/alg/any.rs`      `AnyKey::write_key_exchange`, `from_key_exchange_any`, `from_key_derivation_any`
 * `askar-crypto/src/alg/aes/mod.rs`, `chacha20.rs` `FromKeyDerivation`, `FromKeyExchange`
@@ -16,6 +16,7 @@ Third-party primitives are PARAMETERS: Diffie-Hellman (`DhOps`: x25519-dalek / p
 an explicit `.panic` outcome.  Executable, total, core Lean only.
 -/
 import AskarModel.Base.Bytes
+import AskarModel.Generated.Consts
 
 namespace Askar.Ecdh
 
@@ -167,14 +168,17 @@ def takeKey (digest : Bytes) (outLen : Nat) : Res Bytes :=
 
 /-! ### ECDH-ES and ECDH-1PU -/
 
-/-- `SuppPubInfo` of ECDH-1PU as the code assembles it in the 132-byte stack buffer -/
-def pubInfo1pu (outLen : Nat) (ccTag : Bytes) : Res Bytes := do
-  let w := SliceWriter.new 132
+/-- `SuppPubInfo` of ECDH-1PU as the code assembles it in a stack buffer of `cap` bytes (`[0u8; cap]`) -/
+def pubInfo1puCap (cap : Nat) (outLen : Nat) (ccTag : Bytes) : Res Bytes := do
+  let w := SliceWriter.new cap
   let w ← w.write (be32 (outLen * 8))
   let w ← if ccTag.isEmpty then pure w else do
     let w ← w.write (be32 ccTag.length)
     w.write ccTag
   w.asRef
+
+/-- the current tree: the buffer size extracted from `ecdh_1pu.rs` -/
+def pubInfo1pu (outLen : Nat) (ccTag : Bytes) : Res Bytes := pubInfo1puCap Generated.ecdh1puPubInfoCap outLen ccTag
 
 /-- the string hashed by `EcdhEs::derive_key_bytes` -/
 def esInput (z alg apu apv : Bytes) (outLen : Nat) : Bytes :=
@@ -197,16 +201,21 @@ def deriveEsBytes (D : DhOps) (hash : Bytes → Bytes) (eph rcp : Key) (alg apu 
     exchange D eph rcp receive >>= fun z =>
     takeKey (hash (esInput z alg apu apv outLen)) outLen
 
-/-- `Ecdh1PU::derive_key_bytes` (Ze first, then Zs, then the `pub_info` buffer) -/
-def derive1puBytes (D : DhOps) (hash : Bytes → Bytes) (eph snd rcp : Key) (alg apu apv ccTag : Bytes) (receive : Bool)
-    (outLen : Nat) : Res Bytes :=
+/-- `Ecdh1PU::derive_key_bytes` (Ze first, then Zs, then the `pub_info` buffer of `cap` bytes) -/
+def derive1puBytesCap (cap : Nat) (D : DhOps) (hash : Bytes → Bytes) (eph snd rcp : Key) (alg apu apv ccTag : Bytes)
+    (receive : Bool) (outLen : Nat) : Res Bytes :=
   if outLen > 32 then .err .unsupported
   else if ccTag.length > 128 then .err .unsupported
   else
     exchange D eph rcp receive >>= fun ze =>
     exchange D snd rcp receive >>= fun zs =>
-    pubInfo1pu outLen ccTag >>= fun pi =>
+    pubInfo1puCap cap outLen ccTag >>= fun pi =>
     takeKey (hash (puInput ze zs alg apu apv pi)) outLen
+
+/-- the current tree -/
+def derive1puBytes (D : DhOps) (hash : Bytes → Bytes) (eph snd rcp : Key) (alg apu apv ccTag : Bytes) (receive : Bool)
+    (outLen : Nat) : Res Bytes :=
+  derive1puBytesCap Generated.ecdh1puPubInfoCap D hash eph snd rcp alg apu apv ccTag receive outLen
 
 /-- the `KeyAlg` requested for the derived key -/
 inductive Target
@@ -232,10 +241,15 @@ def deriveKeyEcdhEs (D : DhOps) (hash : Bytes → Bytes) (t : Target) (eph rcp :
     (receive : Bool) : Res Bytes :=
   fromKeyDerivation t (deriveEsBytes D hash eph rcp alg apu apv receive)
 
-/-- `envelope::derive_key_ecdh_1pu` -/
+/-- `envelope::derive_key_ecdh_1pu` with a `pub_info` buffer of `cap` bytes -/
+def deriveKeyEcdh1puCap (cap : Nat) (D : DhOps) (hash : Bytes → Bytes) (t : Target) (eph snd rcp : Key)
+    (alg apu apv ccTag : Bytes) (receive : Bool) : Res Bytes :=
+  fromKeyDerivation t (derive1puBytesCap cap D hash eph snd rcp alg apu apv ccTag receive)
+
+/-- `envelope::derive_key_ecdh_1pu`, current tree -/
 def deriveKeyEcdh1pu (D : DhOps) (hash : Bytes → Bytes) (t : Target) (eph snd rcp : Key) (alg apu apv ccTag : Bytes)
     (receive : Bool) : Res Bytes :=
-  fromKeyDerivation t (derive1puBytes D hash eph snd rcp alg apu apv ccTag receive)
+  deriveKeyEcdh1puCap Generated.ecdh1puPubInfoCap D hash t eph snd rcp alg apu apv ccTag receive
 
 /-- `LocalKey::to_key_exchange` = `from_key_exchange_any`: Z is written into a `Writer` over the key array; its length must
     be exactly the key size -/
